@@ -619,9 +619,7 @@ fn main() {
         })
         .collect();
     let mut w = start_worker();
-    let front_l = TcpListener::bind("127.0.0.1:0").unwrap();
-    let front: SocketAddr = front_l.local_addr().unwrap();
-    drop(front_l);
+    let front: SocketAddr = SocketAddr::from(([127, 0, 0, 1], verif_harness::claim_port()));
     let fa: SocketAddress = front.into();
     let mut lc = ListenerBuilder::new_http(fa.clone()).to_http(None).expect("listener");
     lc.front_timeout = 3;
